@@ -30,6 +30,7 @@ type opDef struct {
 	w    int
 	in   []kind
 	run  func(h *hist, in []*entry)
+	ext  bool // second-API operation (secondapi.go): only drawn in second-API histories
 }
 
 func (o *opDef) applicable(cnt *[nKinds]int) bool {
@@ -51,7 +52,7 @@ func def(name string, w int, in []kind, run func(h *hist, in []*entry)) {
 	if opByName[name] != nil {
 		panic("duplicate op " + name)
 	}
-	o := &opDef{name, w, in, run}
+	o := &opDef{name: name, w: w, in: in, run: run}
 	ops = append(ops, o)
 	opByName[name] = o
 }
